@@ -13,6 +13,7 @@ RULES = {
     "R-02.1": "for every record class (and helper codec, SVCB parameter, EDNS option) the abstract layout of the writer equals the layout of the reader: integer field widths, names, counted/fixed/rest octet fields, repetitions, optional tails, helper codecs",
     "R-02.2": "every call that reaches a type's from_wire_parser with a length taken from the wire is inside `with parser.restrict_to(length)`; restrict_to raises when the region is not consumed exactly and restores the end",
     "R-02.4": "a flag packed into the high bit(s) of an integer field is split at the same bit on both sides: the constant the writer ORs in / shifts by and the constants the reader tests, clears or subtracts name one bit position",
+    "R-02.5": "a wire reader that is given an origin hands it to every callee that takes one (parser.get_name, helper and per-type from_wire_parser, from_wire): an omitted origin silently falls back to the default None and relative names come back absolute",
     "R-02.3": "every RdataType member has a module dns/rdtypes/{ANY,IN,CH}/<NAME>.py with a class of that name deriving from Rdata with all four codec methods, or is in the frozen generic table",
 }
 
@@ -182,6 +183,51 @@ def run(model, rep, tier):
                   f"the flag is not split at one bit position on both sides ({sorted(positions, key=str)}): {detail}", stmt="flag-bit")
     rep.floor("R-02.4", n_p, 2)
 
+    # ---------------------------------------------------------------- R-02.5
+    n_fw = 0
+    for f in sorted(model.all_functions(), key=lambda g: g.qualname):
+        if not (f.module.name.startswith("dns.rdtypes") or f.module.name in ("dns.rdata",)) or "origin" not in f.params():
+            continue
+        if f.node.name not in ("from_wire_parser", "from_wire", "from_text"):
+            continue
+        for c in ast.walk(f.node):
+            if not isinstance(c, ast.Call):
+                continue
+            callee = None
+            label = src(c.func)
+            if isinstance(c.func, ast.Attribute) and c.func.attr == "get_name" and "parser" in src(c.func.value):
+                callee = model.func("dns.wire.Parser.get_name")
+            elif isinstance(c.func, ast.Attribute) and c.func.attr in ("from_wire_parser", "from_wire"):
+                tgt = model.resolve_expr(f, c.func.value)
+                if tgt in model.classes:
+                    callee = model.lookup_method(model.classes[tgt], c.func.attr)
+                    label = f"<{model.classes[tgt].name}>.{c.func.attr}"
+                elif isinstance(c.func.value, ast.Name) and c.func.value.id in ("cls",) and f.cls is not None:
+                    callee = model.lookup_method(f.cls, c.func.attr)
+                elif isinstance(c.func.value, ast.Name) and f.qualname in ("dns.rdata.from_wire_parser", "dns.rdtypes.svcbbase.SVCBBase.from_wire_parser"):
+                    callee = model.func("dns.rdata.Rdata.from_wire_parser") if f.qualname == "dns.rdata.from_wire_parser" else model.func("dns.rdtypes.svcbbase.GenericParam.from_wire_parser")
+                    label = "<dispatched class>." + c.func.attr
+                else:
+                    tq = model.resolve_expr(f, c.func)
+                    callee = model.functions.get(tq)
+            elif isinstance(c.func, ast.Name) and c.func.id in ("from_wire", "from_wire_parser"):
+                callee = f.module.functions.get(c.func.id)
+            if callee is None or "origin" not in callee.params():
+                continue
+            n_fw += 1
+            params = [p_ for p_ in callee.params() if p_ not in ("self", "cls")]
+            idx = params.index("origin")
+            passed = (len(c.args) > idx and not any(isinstance(a, ast.Starred) for a in c.args)) or any(k.arg == "origin" for k in c.keywords) or any(k.arg is None for k in c.keywords)
+            key = (f.qualname if f.cls is None else f.cls.qualname, "get_name" if label.endswith("get_name") else label)
+            if passed:
+                rep.ok("R-02.5", f.qualname, where(f, c), f"`{label}` receives the origin", stmt="origin -> " + label, nontrivial=False)
+            elif key[0] in NAME_ORIGIN_OK:
+                rep.excepted("R-02.5", f.qualname, where(f, c), NAME_ORIGIN_OK[key[0]], stmt="origin -> " + label)
+            else:
+                rep.bad("R-02.5", f.qualname, where(f, c), f"`{src(c)[:70]}` omits `origin` although {callee.qualname} takes one: with an origin, names decoded there stay absolute and the decoded record differs from the encoded one",
+                        stmt="origin -> " + label)
+    rep.floor("R-02.5", n_fw, 25)
+
     # ---------------------------------------------------------------- R-02.2
     n_sites = 0
     for f in model.all_functions():
@@ -252,6 +298,10 @@ def run(model, rep, tier):
 
 
 WITNESSES = [
+    {"id": "c02-amtrelay-helper-without-origin", "rule": "R-02.5", "file": "dns/rdtypes/ANY/AMTRELAY.py", "expect": "fires",
+     "old": "        relay = Relay.from_wire_parser(relay_type, parser, origin)", "new": "        relay = Relay.from_wire_parser(relay_type, parser)"},
+    {"id": "c02-twin-ipseckey-origin-keyword", "rule": "R-02.5", "file": "dns/rdtypes/IN/IPSECKEY.py", "expect": "silent",
+     "old": "        gateway = Gateway.from_wire_parser(gateway_type, parser, origin)", "new": "        gateway = Gateway.from_wire_parser(gateway_type, parser, origin=origin)"},
     {"id": "c02-apl-negation-threshold", "rule": "R-02.4", "file": "dns/rdtypes/IN/APL.py", "expect": "fires",
      "old": "            if afdlen > 127:", "new": "            if afdlen > 128:"},
     {"id": "c02-twin-apl-negation-mask", "rule": "R-02.4", "file": "dns/rdtypes/IN/APL.py", "expect": "silent",
